@@ -14,7 +14,7 @@ fn run_prog(texts: &[String], replies: &[String], tron: bool, probes: &[String])
     let mut term = Term::new();
     let mut o = Opts::default();
     o.replies = replies.iter().cloned().collect();
-    o.max_calls = 60_000;
+    o.max_calls = 5000;
     for l in texts {
         term.enter_raw(l);
         term.run(&mut o);
@@ -269,7 +269,7 @@ fn check_layout(t: &mut Tape, ctx: &Ctx) -> Outcome {
 fn run_direct(prog: &[String], directs: &[String]) -> Option<String> {
     let mut term = Term::new();
     let mut o = Opts::default();
-    o.max_calls = 20_000;
+    o.max_calls = 4000;
     for l in prog {
         term.enter_raw(l);
         term.run(&mut o);
